@@ -295,6 +295,12 @@ func C08(c *Ctx) {
 	// the wrapped handler receives the request as updated by LoadCurrentUser (same variable)
 	// (2) atoms
 	c.c08Atoms(full, two)
+	if c.gateOnly {
+		// borrowed by a property that needs only the admission decision, not the
+		// shape of the refusal
+		c.sentinelTransparent("C08.sentinel")
+		return
+	}
 	// (3) fail table
 	if fail == nil {
 		// the refusal is written out in the handler: its mode table is part of the
